@@ -50,17 +50,15 @@ theorem putRec_again {s s1 : AState} {path : String} {v : V} (h : putRec s path 
   obtain ⟨prev, hput⟩ := putRec_ok h
   exact putRec_fresh_of_Put (Put_idempotent (splitPath_ne_nil path) hput)
 
-theorem getP_Put_gen {d d1 : Doc} {p : Path} {x prev : V} {pre : Bool} (hp : p ≠ [])
-    (h : Put d p x pre = .ok (d1, prev)) :
-    getP d1 p = x ∨ (canonPath p = false ∧ getP d1 p = .missing ∧ getP d p = .missing) := by
+/-- the value just written by `bsonkit.Put` is read back. -/
+theorem getP_Put {d d1 : Doc} {p : Path} {x prev : V} {pre : Bool} (hp : p ≠ [])
+    (h : Put d p x pre = .ok (d1, prev)) : getP d1 p = x := by
   cases p with
   | nil => exact absurd rfl hp
   | cons key rest =>
     rw [Put_ok_iff] at h
     unfold getP
-    rcases get_put_gen _ _ _ _ _ _ false h.2 h.1 with h' | ⟨c1, c2, c3⟩
-    · left; rw [h']
-    · right; rw [c2, c3]; exact ⟨c1, rfl, rfl⟩
+    rw [get_put_same _ _ _ _ _ _ false h.2 h.1]
 
 /-! ### $set, $min, $max -/
 
@@ -184,9 +182,7 @@ theorem pullAll_idem (c : ACtx) (s s1 : AState) (path : String) (v : V)
           have hg' : getP s1.doc (splitPath path) =
               .arr (arr.filter fun item => !(targets.any fun t => V.cmp item t == .eq)) := by
             rw [hd]
-            rcases getP_Put_gen (splitPath_ne_nil path) hput with h' | ⟨_, _, c3⟩
-            · exact h'
-            · rw [hg] at c3; cases c3
+            exact getP_Put (splitPath_ne_nil path) hput
           simp only [hg', List.filter_filter, Bool.and_self, beq_self_eq_true, if_true]
           exact ⟨_, rfl, rfl⟩
     · rename_i hne1 hne2
@@ -233,9 +229,7 @@ theorem pull_idem (c : ACtx) (s s1 : AState) (path : String) (v : V)
           simp only at hd
           have hg' : getP s1.doc (splitPath path) = .arr result := by
             rw [hd]
-            rcases getP_Put_gen (splitPath_ne_nil path) hput with h' | ⟨_, _, c3⟩
-            · exact h'
-            · rw [hg] at c3; cases c3
+            exact getP_Put (splitPath_ne_nil path) hput
           simp only [hg', pullFilter_idem _ _ _ _ _ hf]
           exact ⟨_, rfl, rfl⟩
   · cases h
@@ -327,26 +321,14 @@ theorem addToSet_idem (c : ACtx) (s s1 : AState) (path : String) (v : V)
         · rename_i d pv hput
           have hd := record_doc h
           simp only at hd
-          rcases getP_Put_gen (splitPath_ne_nil path) hput with h' | ⟨_, c2, c3⟩
-          · -- the array just written is read back: nothing to add any more
-            rw [← hd] at h'
-            simp only [h']
-            change ∃ s2, (if ((values.foldl addStep (values.foldl addStep arr)).length ==
-              (values.foldl addStep arr).length) = true then _ else _) = _ ∧ _
-            simp only [addFold_idem, beq_self_eq_true, if_true]
-            exact ⟨_, rfl, rfl⟩
-          · -- signed index on an array: the path reads Missing before and after; same write again
-            rw [← hd] at c2
-            rw [c3] at harr
-            simp only at harr
-            cases harr
-            simp only [c2]
-            change ∃ s2, (if ((values.foldl addStep []).length == ([] : List V).length) = true then _ else _) = _ ∧ _
-            simp only [hl, if_false, Bool.false_eq_true]
-            rw [← hd] at hput
-            have := Put_idempotent (splitPath_ne_nil path) hput
-            simp only [this, record_fresh]
-            exact ⟨_, rfl, rfl⟩
+          have h' := getP_Put (splitPath_ne_nil path) hput
+          -- the array just written is read back: nothing to add any more
+          rw [← hd] at h'
+          simp only [h']
+          change ∃ s2, (if ((values.foldl addStep (values.foldl addStep arr)).length ==
+            (values.foldl addStep arr).length) = true then _ else _) = _ ∧ _
+          simp only [addFold_idem, beq_self_eq_true, if_true]
+          exact ⟨_, rfl, rfl⟩
 
 /-! ### the change log is conflict free -/
 
@@ -475,7 +457,7 @@ theorem Apply_cf (c : ACtx) (d u : Doc) (afs : List Doc) (d' : Doc) (ch : List (
 
 theorem putRec_holds {s s1 : AState} {path : String} {x : V} (h : putRec s path x = .ok s1) :
     s1.changed = s.changed ++ [(path, x)] ∧ x.isMissing = false ∧
-      (canonPath (splitPath path) = true → Get s1.doc path = x) := by
+      Get s1.doc path = x := by
   obtain ⟨prev, hput⟩ := putRec_ok h
   unfold putRec at h
   split at h
@@ -487,10 +469,7 @@ theorem putRec_holds {s s1 : AState} {path : String} {x : V} (h : putRec s path 
         | cons a b => exact ⟨a, b, rfl⟩
       rw [e, Put_ok_iff] at hput
       exact hput.1
-    · intro hcanon
-      rcases getP_Put_gen (splitPath_ne_nil path) hput with h' | ⟨c1, _, _⟩
-      · exact h'
-      · rw [hcanon] at c1; cases c1
+    · exact getP_Put (splitPath_ne_nil path) hput
 
 /-- the operators that perform at most one `Put` + `record` of the same present value. -/
 def scalarOps : List String :=
